@@ -54,6 +54,8 @@ const char* error_name(gdstk::ErrorCode e);
 std::vector<std::vector<canon::IPt>> path_outline(const model::MLib& m, const model::MPath& p, uint64_t* max_raw_vertices = nullptr, bool expand = true);
 // centre line of a simple RobustPath as the writer samples it (element_center), rounded likewise
 std::vector<std::vector<canon::IPt>> robust_centres(const model::MLib& m, const model::MPath& p, bool expand = true);
+// centre lines of the elements of a simple FlexPath with several elements, as the writer computes them
+std::vector<std::vector<canon::IPt>> flex_centres(const model::MLib& m, const model::MPath& p, bool expand = true);
 
 }  // namespace bridge
 
